@@ -72,4 +72,17 @@ CLAIMED['C19'] = dict(
     technique='Lean 4 theorems over the sensor model + differential correspondence',
 )
 
+CLAIMED['C09'] = dict(
+    text='Theorems (Props/C09.lean) over the resource-manager model for EVERY sequence of well-formed operations (also before '
+         'initialisation): invariant (usage of each resource = sum held by outstanding reservations, holdings positive, '
+         'capacity >= 0) by induction; usage >= 0; an operation that reports an error returns the unchanged manager; reserve '
+         'succeeds iff everything fits and then takes exactly the requested amounts, otherwise nothing; usage <= capacity is '
+         'preserved by everything except an explicit capacity reduction; full / partial release give back exactly what is '
+         'named; second release is a no-op; merge never changes a pool and sums the holdings. The model is the manager as '
+         'repaired by the fix: commits F1, F2, F3, F9. Tie: family rm vs the real ResourceManager, incl. zero / negative / '
+         'unknown entries and pre-start operations; monitor: usage = sum of all holdings, error => nothing changed.',
+    note=BASE_NOTE + ' Hypotheses: request dictionaries have distinct keys; merge gets two distinct reservations; integer amounts.',
+    technique='Lean 4 invariant proof by induction over operation sequences + differential correspondence',
+)
+
 NOT_CLAIMED = {}
